@@ -130,8 +130,8 @@ def uses(case, what):
             if so != "S" and n[0] in ("f", "fblock") and n[1] == what:
                 return True
             if so != "S" and n[0] == "f" and n[1] == "map":
-                for _, e in n[3]:
-                    if e[0] == "klit" and e[1] == what:
+                for kw, e in n[3]:
+                    if kw is None and e[0] == "klit" and e[1] == what:
                         return True
     return False
 
